@@ -60,7 +60,9 @@ fn subsets(names: &[String], k: usize) -> Vec<Vec<String>> {
 }
 
 impl Reg {
-    fn new(seed: u64, run: u64, universe: &[String]) -> Reg {
+    fn new(seed: u64, run: u64, universe: &[String]) -> Reg { Reg::new_kind(seed, run, universe, "") }
+
+    fn new_kind(seed: u64, run: u64, universe: &[String], kind: &str) -> Reg {
         let mut w = World::new();
         let now = w.now_nanos();
         w.add_denom("uwhale");
@@ -80,6 +82,11 @@ impl Reg {
         real.push(w.add_cw20("tokenb", "TKB", 8));
         let mut r = gen::rng(seed, run ^ 0x5245_4749);
         real.shuffle(&mut r);
+        // vaults are also keyed by denoms with upper-case letters (IBC denoms): on every other vault run one comes first
+        if kind == "vault" && run % 2 == 1 {
+            let ibc = w.add_denom("ibc/27394FB092D2ECCD56123C74F36E4C1F926001CEADA9CA97EA622B25F41E5EB2");
+            real.insert(0, ibc);
+        }
         let map: Vec<(String, A)> = universe.iter().cloned().zip(real.into_iter()).collect();
         let incentive_factory = w.new_incentive_factory(&hub.collector, &hub.distributor, A::Native("uwhale".into()).asset(1000));
         let user = w.add_account("user1");
@@ -262,7 +269,7 @@ pub fn run_schedule(rec: &mut Rec, seed: u64, run: u64, line: &str) {
     let kind = v["kind"].as_str().unwrap().to_string();
     let arity = match kind.as_str() { "pair" => 2, "trio" => 3, _ => 1 };
     let universe: Vec<String> = if arity >= 2 { vec!["A", "B", "C", "D"] } else { vec!["A", "B", "C"] }.into_iter().map(String::from).collect();
-    let mut g = Reg::new(seed, run, &universe);
+    let mut g = Reg::new_kind(seed, run, &universe, &kind);
     let mapping: Vec<Value> = g.map.iter().map(|(n, a)| json!({"m": n, "real": a.id(), "kind": a.kind()})).collect();
     rec.emit(json!({"ev": "reset", "suite": "registry", "run": run, "seed": seed.to_string(), "sched": v.clone(),
         "cfg": {"kind": kind, "arity": arity, "universe": universe, "map": mapping}, "obs": g.obs(&kind, &universe, arity)}));
